@@ -147,6 +147,9 @@ def handleRule (rule : String) (kv : List (String × String)) : String :=
     | "nlargest" => match gc kv "frame", goc kv "columns" with
         | some f, some s => rRw false (nlargest f s p deps)
         | _, _ => "BAD params"
+    | "rolling" => match gc kv "frame", goc kv "gb" with
+        | some f, some g => rRw false (rolling f g p deps)
+        | _, _ => "BAD params"
     | "merge" => match gc kv "L", gc kv "R", gc kv "lon", gc kv "ron", get kv "ls", get kv "rs" with
         | some l, some r, some lo, some ro, some ls, some rs =>
             rRw false (merge ⟨lo, ro, pStr ls, pStr rs⟩ l r p deps)
